@@ -57,9 +57,10 @@ impl Ctx {
     pub fn ok(&mut self, fam: &str, case: u64) {
         writeln!(self.oracle, "OK {fam} {case}").unwrap();
     }
-    pub fn fail(&mut self, fam: &str, case: u64, sig: &str, detail: &str) {
+    /// `props`: comma separated ids of the properties this failure violates
+    pub fn fail(&mut self, fam: &str, case: u64, props: &str, sig: &str, detail: &str) {
         let d = detail.replace('\n', " / ");
-        writeln!(self.oracle, "FAIL {fam} {case} sig={sig} {d}").unwrap();
+        writeln!(self.oracle, "FAIL {fam} {case} prop={props} sig={sig} {d}").unwrap();
     }
     pub fn count(&mut self, key: &str) {
         *self.stats.entry(key.to_string()).or_insert(0) += 1;
